@@ -10,6 +10,7 @@ from dataclasses import dataclass, field, replace
 from functools import cached_property, partial
 from types import FunctionType, GenericAlias
 
+from . import _verif
 from .recode import (
     Conformer,
     adapt_function,
@@ -487,18 +488,23 @@ class Ovld:
         for mixin in self.mixins:
             if self not in mixin.children:
                 mixin.lock()
+        _verif.point("compile.locked", ov=self.id)
 
         if self.name is None:
             self.name = self.__name__ = f"ovld{self.id}"
 
         name = self.__name__
         self.map = MultiTypeMap(name=name, key_error=self._key_error)
+        _verif.point("compile.newmap", ov=self.id)
 
         self.analyze_arguments()
+        _verif.point("compile.analyzed", ov=self.id)
         dispatch = generate_dispatch(self, self.argument_analysis)
+        _verif.point("compile.generated", ov=self.id)
         if not hasattr(self, "dispatch"):
             self.dispatch = bootstrap_dispatch(self, name=self.shortname)
         self.dispatch.__code__ = rename_code(dispatch.__code__, self.shortname)
+        _verif.point("compile.swapped", ov=self.id)
         self.dispatch.__kwdefaults__ = dispatch.__kwdefaults__
         self.dispatch.__annotations__ = dispatch.__annotations__
         self.dispatch.__defaults__ = dispatch.__defaults__
@@ -508,8 +514,10 @@ class Ovld:
 
         for key, fn in list(self.defns.items()):
             self.register_signature(key, fn)
+            _verif.point("compile.registered", ov=self.id)
 
         self._compiled = True
+        _verif.point("compile.done", ov=self.id)
 
     def resolve(self, *args):
         """Find the correct method to call for the given arguments."""
